@@ -23,6 +23,8 @@ def gen_equiv(ctx, n):
             lens = sorted(lens, reverse=True)
         cases.append({'seed': r.randint(0, 10**6), 'kind': kind, 'nl': r.choice(['tanh', 'relu']), 'D': r.randint(1, 3), 'H': r.randint(1, 3), 'layers': r.randint(1, 3),
                       'bias': r.random() < 0.7, 'bf': r.random() < 0.5, 'bidir': r.random() < 0.5, 'B': B, 'T': T, 'lens': lens, 'input': inp, 'init': r.random() < 0.5})
+        if r.random() < 0.25:
+            cases[-1]['wide'] = True        # a float64 layer in a process whose default dtype is float32
         if cases[-1]['layers'] > 1 and r.random() < 0.5:
             # dropout configured, layers in eval mode: inactive in both implementations, on padded and on packed inputs
             cases[-1].update(dropout=r.choice([0.3, 0.7]), eval=True)
@@ -34,6 +36,9 @@ def gen_equiv(ctx, n):
         lens = sorted([r.randint(1, T) for _ in range(B - 1)] + [T], reverse=True)
         cases.append({'seed': r.randint(0, 10**6), 'kind': kind, 'nl': 'tanh', 'D': r.randint(1, 3), 'H': r.randint(1, 3), 'layers': r.randint(2, 3), 'bias': True, 'bf': r.random() < 0.5,
                       'bidir': r.random() < 0.5, 'B': B, 'T': T, 'lens': lens, 'input': inp, 'init': r.random() < 0.5, 'dropout': 1.0, 'warm': False, 'badcall': False})
+    for kind in ('rnn', 'gru', 'lstm'):
+        cases.append({'seed': 6, 'kind': kind, 'nl': 'tanh', 'D': 2, 'H': 3, 'layers': 2, 'bias': True, 'bf': False, 'bidir': True, 'B': 3, 'T': 4,
+                      'lens': [2, 4, 1], 'input': 'packed_unsorted', 'init': False, 'wide': True})
     # corners named by the property: packed + bidirectional + multi-layer + given initial state + bias=False
     for kind in ('rnn', 'gru', 'lstm'):
         for inp in ('packed_unsorted', 'packed_sorted'):
